@@ -27,6 +27,7 @@ import (
 type c08Desc struct {
 	Use  string `json:"use"`
 	Cert string `json:"cert"`
+	Em   string `json:"em,omitempty"` // class of the EncryptionMethod children ("" and "none": no child)
 }
 
 type c08Vec struct {
@@ -66,7 +67,11 @@ func c08LayoutName(l []c08Desc) string {
 	}
 	var p []string
 	for _, d := range l {
-		p = append(p, sh(d.Use)+"/"+sh(d.Cert))
+		n := sh(d.Use) + "/" + sh(d.Cert)
+		if d.Em != "" && d.Em != "none" {
+			n += "/" + d.Em
+		}
+		p = append(p, n)
 	}
 	return strings.Join(p, "+")
 }
@@ -154,6 +159,7 @@ func c08MetadataXML(layout []c08Desc, rng *rand.Rand) []byte {
 			default: // empty KeyInfo
 				kd.CreateElement("ds:KeyInfo")
 			}
+			c08EncryptionMethods(kd, d.Em)
 			continue
 		}
 		c := kd.CreateElement("ds:KeyInfo").CreateElement("ds:X509Data").CreateElement("ds:X509Certificate")
@@ -164,6 +170,7 @@ func c08MetadataXML(layout []c08Desc, rng *rand.Rand) []byte {
 			// the rest of the chain: a certificate whose private key the SP does not hold
 			c.Parent().CreateElement("ds:X509Certificate").SetText(c08Wrap64(key("rsa3072").CertB64(), rng))
 		}
+		c08EncryptionMethods(kd, d.Em)
 	}
 	acs := sd.CreateElement("md:AssertionConsumerService")
 	acs.CreateAttr("Binding", saml.HTTPPostBinding)
@@ -174,6 +181,27 @@ func c08MetadataXML(layout []c08Desc, rng *rand.Rand) []byte {
 		panic(err)
 	}
 	return b
+}
+
+// c08EncryptionMethods appends the EncryptionMethod children of class em (spec/EncLayouts.tla, EMs)
+// after the KeyInfo of kd.
+func c08EncryptionMethods(kd *etree.Element, em string) {
+	const xe = "http://www.w3.org/2001/04/xmlenc#"
+	var algs []string
+	switch em {
+	case "", "none":
+	case "aes128cbc":
+		algs = []string{xe + "aes256-cbc", xe + "aes128-cbc", xe + "rsa-oaep-mgf1p"}
+	case "aes256cbcOnly":
+		algs = []string{xe + "aes256-cbc", xe + "aes192-cbc", xe + "tripledes-cbc"}
+	case "gcmOaepOnly":
+		algs = []string{"http://www.w3.org/2009/xmlenc11#aes128-gcm", xe + "rsa-oaep-mgf1p"}
+	default:
+		panic("unknown EncryptionMethod class " + em)
+	}
+	for _, a := range algs {
+		kd.CreateElement("md:EncryptionMethod").CreateAttr("Algorithm", a)
+	}
 }
 
 type c08Markers struct {
@@ -491,9 +519,19 @@ func (s *c08Shrinker) shrink(l []c08Desc, problem string) []c08Desc {
 			}
 		}
 	}
+	// an EncryptionMethod list that does not matter is dropped
+	for i := range cur {
+		if cur[i].Em != "" {
+			cand := append([]c08Desc{}, cur...)
+			cand[i].Em = ""
+			if s.problemOf(cand) == problem {
+				cur = cand
+			}
+		}
+	}
 	// canonical form: every order of the remaining descriptors, each either kept or replaced by a plain
 	// good descriptor; the candidate with the fewest unusual descriptors (then the smallest name) wins
-	goods := []c08Desc{{"encryption", "validRSA"}, {"omitted", "validRSA"}}
+	goods := []c08Desc{{Use: "encryption", Cert: "validRSA"}, {Use: "omitted", Cert: "validRSA"}}
 	unusual := func(l []c08Desc) int {
 		n := 0
 		for _, d := range l {
@@ -758,7 +796,7 @@ func c08SpJudge(rep *Report, v *c08Vec, k string, encDoc, plainDoc []byte, enc, 
 func c08StreamFreshness(rep *Report) {
 	old := xmlenc.RandReader
 	defer func() { xmlenc.RandReader = old }()
-	l := []c08Desc{{"encryption", "validRSA"}}
+	l := []c08Desc{{Use: "encryption", Cert: "validRSA"}}
 	rng := newRand("C08/stream")
 	md := &saml.EntityDescriptor{}
 	if err := xml.Unmarshal(c08MetadataXML(l, rng), md); err != nil {
@@ -833,6 +871,11 @@ func TestC08(t *testing.T) {
 	}
 	parallel(len(idpVecs), func(i int) {
 		v := idpVecs[i]
+		for k := range v.Layout {
+			if v.Layout[k].Em == "none" {
+				v.Layout[k].Em = ""
+			}
+		}
 		name := c08LayoutName(v.Layout)
 		for r := 0; r < reps; r++ {
 			rng := newRand(fmt.Sprintf("C08/idp/%s/%d", name, r))
